@@ -2154,6 +2154,7 @@ static void upipe_h264f_end_annexb(struct upipe *upipe, struct upump **upump_p)
             upipe_warn(upipe, "discarding non-sync data");
             upipe_h264f_consume_uref_stream(upipe, upipe_h264f->au_size);
             upipe_h264f->au_size = 0;
+            upipe_h264f->au_nal_units = 0;
         }
         upipe_h264f_sync_acquired(upipe);
         return;
@@ -2192,6 +2193,7 @@ static void upipe_h264f_end_annexb(struct upipe *upipe, struct upump **upump_p)
             upipe_warn(upipe, "discarding invalid slice data");
             upipe_h264f_consume_uref_stream(upipe, upipe_h264f->au_size);
             upipe_h264f->au_size = 0;
+            upipe_h264f->au_nal_units = 0;
             return;
         }
         if (last_nal_type == H264NAL_TYPE_IDR) {
@@ -2205,6 +2207,7 @@ static void upipe_h264f_end_annexb(struct upipe *upipe, struct upump **upump_p)
         upipe_warn(upipe, "discarding non-slice data due to discontinuity");
         upipe_h264f_consume_uref_stream(upipe, upipe_h264f->au_size);
         upipe_h264f->au_size = 0;
+        upipe_h264f->au_nal_units = 0;
         return;
     }
 
